@@ -25,12 +25,16 @@ reg("C15",
     level_note="Trusted: serde_json/serde_smile to render probe documents; Rust integer formatting. Values further than the radius from every centre are assumed to behave like their neighbours.")
 
 reg("C12",
-    packages=["sweeps"], bin="sweeps", level="exploration", engine="E4 sweeps",
+    packages=["sweeps", "cgorder"], level="exploration", engine="E4 sweeps + E2 genharness",
+    parts=[
+        {"packages": ["sweeps"], "bin": "sweeps"},
+        {"packages": ["cgorder"], "cmd": ["python3", "engines/e2/e2.py"]},
+    ],
     technique="bounded exhaustive enumeration of value grids/ranges through to_plain/from_plain of the real code, judged by round-trip identity and an independent PLAIN spelling model",
     design_ref="DESIGN.md §3 C12",
     explanation="per PLAIN-capable runtime type every value of a grid or full range (thorough: all 2^32 i32, all 2^32 f32-widened doubles) is formatted and parsed back; text is compared with independent encoders (Base64, uuid, decimal) or grammar checkers (number, RFC 3339)",
     level_text="Exhaustive exploration of complete ranges where feasible (bool, i32, byte strings <= 2, f32-widened doubles) and of class-boundary grids elsewhere, on the real formatting/parsing code against an independent spelling model.",
-    level_note="Trusted: chrono's field constructors to build instants; std float parsing as the judge of 'same number'. Generated enums/aliases are covered by the E2 part when built.")
+    level_note="Trusted: chrono's field constructors to build instants; std float parsing as the judge of 'same number'. Part 1 runs the compiled generated enums and aliases of PLAIN primitives (value -> to_plain -> from_plain, spelling model).")
 
 reg("C01",
     packages=["shapes"], bin="shapes", level="model_checking", engine="E1 shapes",
